@@ -9,7 +9,8 @@
        of a non-concurrent state machine);
      - pb.EntriesToApply drops the prefix of a batch at or below s.index and
        panics on a hole;
-     - setApplied panics unless the index is exactly s.index+1;
+     - setApplied panics unless the index is exactly s.index+1 — after the entry was handed
+       to Update (it is deferred in update());
      - an update entry at or below onDiskInitIndex (the value returned by Open,
        or the OnDiskIndex of an imported snapshot) is turned into a no-op;
      - session duplicates / unknown sessions / register / unregister / config
@@ -58,15 +59,17 @@ Definition entries_to_apply (l : list entry) (applied : N) : option (list entry)
 
 Definition handle_entry (st : astate) (e : entry) : astate :=
   if negb (a_err st =? 0) then st
-  else if negb (a_index st + 1 =? e_index e) then mkA (a_index st) (a_init st) (a_disk st) (a_calls st) 2
   else
     let deliver :=
       match e_kind e with
       | KUpdate => negb (a_disk st && (e_index e <=? a_init st))
       | KSkip => false
       end in
-    mkA (e_index e) (a_init st) (a_disk st)
-        (if deliver then (e_index e, e_payload e) :: a_calls st else a_calls st) 0.
+    let calls := if deliver then (e_index e, e_payload e) :: a_calls st else a_calls st in
+    (* setApplied runs (deferred) AFTER the user's Update: on a gap the entry has already been
+       handed to the state machine when the apply path panics *)
+    if negb (a_index st + 1 =? e_index e) then mkA (a_index st) (a_init st) (a_disk st) calls 2
+    else mkA (e_index e) (a_init st) (a_disk st) calls 0.
 
 Definition handle_task (st : astate) (t : task) : astate :=
   if negb (a_err st =? 0) then st
